@@ -890,7 +890,16 @@ func (p *partition) becomeLeader(epoch uint64) error {
 		// Also update the protobuf ISR list for persistence.
 		p.Isr = append(p.Isr, p.srv.config.Clustering.ServerID)
 	}
-	rep.updateLatestOffset(p.log.NewestOffset())
+	if rep.updateLatestOffset(p.log.NewestOffset()) {
+		// The HW recovered from the checkpoint may be behind what the ISR has
+		// replicated, e.g. after an unclean shutdown, and nothing else checks
+		// it until the next message is received, so check it once the commit
+		// loop starts. This is a no-op until the rest of the ISR catches up.
+		select {
+		case p.commitCheck <- struct{}{}:
+		default:
+		}
+	}
 
 	// Start message processing loop.
 	recvChan := make(chan *nats.Msg, recvChannelSize)
